@@ -64,6 +64,20 @@ AcceptStorageLayoutW(shape, strides, len, mutable, mode) ==
   /\ MinLenDefined(shape, strides, mode) /\ WLe(MinDataLenW(shape, strides, mode), len)
   /\ (mutable => ~MayOverlapImplW(shape, strides, mode))
 
+
+\* ------------------------------------------------ growth of an owned tensor in place
+\* TensorBase<Vec<T>, L>::expanded_layout (has_capacity / append / concat): the layout keeps its
+\* strides, the size of `axis` (0-based) becomes newSize; accepted iff checked_min_data_len of the
+\* grown layout is defined and <= the Vec capacity and the grown layout passes the overlap test.
+GrownW(shape, axis, newSize) == [i \in 1..Len(shape) |-> IF i = axis + 1 THEN newSize ELSE shape[i]]
+AcceptGrowW(shape, strides, axis, newSize, cap, mode) ==
+  LET g == GrownW(shape, axis, newSize) IN
+  /\ MinLenDefined(g, strides, mode) /\ WLe(MinDataLenW(g, strides, mode), cap)
+  /\ ~MayOverlapImplW(g, strides, mode)
+\* CONTRACT for growth (C06: the owned tensor is mutable): an accepted grown layout is injective
+\* (three-valued InjectiveW: a violation only when non-injectivity is certain)
+GrowInjectiveW(shape, strides, axis, newSize) == InjectiveW(GrownW(shape, axis, newSize), strides)
+
 \* ------------------------------------------------------------------- ints
 \* the same over TLC ints with word size M (M = 0: exact) for the exhaustive K-bit search
 RECURSIVE ContigStridesMR(_, _, _, _)
